@@ -871,6 +871,9 @@ class Converter(utils.ContextWeakrefMixin):
           or name in annotated_names
           or (v.is_enum and name in ("__new__", "__eq__"))
           or name in inner_class_names
+          # Compiler-generated names, like the ".0" iterator of a comprehension
+          # that Python 3.12 inlines into the class body, are not attributes.
+          or name.startswith(".")
       ):
         continue
       for value in member.FilteredData(self.ctx.exitpoint, strict=False):
